@@ -282,6 +282,26 @@ def gen_pull(rng, fx, name, fault=None, small=False):
     return op
 
 
+LINKS = [("dir", "example.com"), ("dir", "Example.com"), ("dir", "registry.ollama.ai/ns"), ("dir", "registry.ollama.ai/NS"),
+         ("dir", "example.com/ns2"), ("dir", "registry.ollama.ai/library/m"), ("dir", "registry.ollama.ai/ns/model"),
+         ("dir", "example.com/ns/M"), ("dangling", "registry.ollama.ai/ghost"), ("dangling", "example.com/ns/ghost"), ("blobs", "")]
+
+
+def gen_links(rng, choices=None):
+    """store layouts with symbolic links: a host / namespace / model directory below manifests/ (or blobs/) is a link to a
+    directory elsewhere, or a link that dangles; planted before anything uses the path"""
+    picks = rng.sample(choices or LINKS, rng.randint(1, 3))
+    seen, out = set(), []
+    for kind, path in picks:
+        # a link below a dangling link or below the same path cannot be made
+        if path in seen or any(path.startswith(p + "/") or p.startswith(path + "/") for p in seen if kind == "dangling" or p in [x for k, x in picks if k == "dangling"]):
+            continue
+        seen.add(path)
+        out.append({"op": "linkdir", "kind": kind, "path": path})
+    out.sort(key=lambda o: o["path"].count("/"))   # outer directories first
+    return out
+
+
 def gen_legacy(rng, fx, uploaded):
     """the store as an older version left it: some blob files named sha256:<hex>, old partial downloads"""
     cand = [sha(fx.data[k]) for k in uploaded] + [sha(x.encode()) for x in SYSTEMS + TEMPLATES + LICENSES] + [sha(c) for c in CONFIGS]
@@ -324,6 +344,8 @@ def gen_pull_big(rng, fx, name):
 def gen_history(rng, fx, n_ops, klass):
     """one history; returns list of ops (harness format, plus private '_' keys used for the oracle)"""
     ops, used, uploaded = [], [], []
+    if klass in ("mixed", "long") and rng.random() < 0.3:
+        ops += gen_links(rng)
 
     def upload(k, spelling="colon"):
         b = fx.data[k]
@@ -389,7 +411,10 @@ def gen_history(rng, fx, n_ops, klass):
             ops.append({"op": "startup"})
         else:
             ops.append({"op": "startup"} if rng.random() < 0.75 else {"op": "startup", "env": ["OLLAMA_NOPRUNE=1"]})
-    if klass != "pull" and rng.random() < 0.35:
+    blobs_linked = any(o["op"] == "linkdir" and o["kind"] == "blobs" for o in ops)
+    if blobs_linked:
+        ops = [o for o in ops if o["op"] != "legacy"]
+    if klass != "pull" and not blobs_linked and rng.random() < 0.35:
         ops.append(gen_legacy(rng, fx, uploaded))
     if rng.random() < 0.7 or (ops and ops[-1]["op"] == "legacy"):
         ops.append({"op": "startup"})
@@ -431,6 +456,34 @@ CORPUS = [
         {"op": "startup"},
         {"op": "startup"},
         {"op": "delete", "name": "a"}]),
+    # a namespace directory that is a symbolic link (PruneDirectory keeps such links; create/copy/pull/show work through them):
+    # the models below it must take part in every reference scan
+    ("linked-namespace", lambda fx: [
+        {"op": "linkdir", "kind": "dir", "path": "registry.ollama.ai/team"},
+        {"op": "linkdir", "kind": "dangling", "path": "registry.ollama.ai/ghost"},
+        {"op": "blob", "digest": "sha256:" + sha(fx.data["g0"]), "data": fx.data["g0"].hex(), "_fx": "g0"},
+        {"op": "create", "name": "team/base", "files": {"m.gguf": "sha256:" + sha(fx.data["g0"])}, "_fx": "g0", "system": "You are S1."},
+        {"op": "create", "name": "scratch", "files": {"m.gguf": "sha256:" + sha(fx.data["g0"])}, "_fx": "g0"},
+        {"op": "delete", "name": "scratch"},
+        {"op": "startup"},
+        {"op": "copy", "src": "team/base", "dst": "team/copy"},
+        {"op": "delete", "name": "team/base"},
+        {"op": "startup"}]),
+    ("legacy-store-linked-blobs-dir", lambda fx: [
+        {"op": "linkdir", "kind": "blobs", "path": ""},
+        {"op": "blob", "digest": "sha256:" + sha(fx.data["g0"]), "data": fx.data["g0"].hex(), "_fx": "g0"},
+        {"op": "create", "name": "a", "files": {"m.gguf": "sha256:" + sha(fx.data["g0"])}, "_fx": "g0", "system": "You are S1."},
+        {"op": "legacy", "blobs": [sha(fx.data["g0"]), sha(b"You are S1.")], "partials": [sha(fx.data["g1"])]},
+        {"op": "startup"}]),
+    ("linked-blobs-dir", lambda fx: [
+        {"op": "linkdir", "kind": "blobs", "path": ""},
+        {"op": "linkdir", "kind": "dir", "path": "registry.ollama.ai/library/m"},
+        {"op": "blob", "digest": "sha256:" + sha(fx.data["gt"]), "data": fx.data["gt"].hex(), "_fx": "gt"},
+        {"op": "create", "name": "m:t", "files": {"m.gguf": "sha256:" + sha(fx.data["gt"])}, "_fx": "gt"},
+        {"op": "create", "name": "m:t2", "from": "m:t", "system": "You are S2."},
+        {"op": "startup"},
+        {"op": "delete", "name": "m:t"},
+        {"op": "startup"}]),
     # pull of a name whose default host is stored with another letter case
     ("pull-default-host-case", lambda fx: [
         {"op": "blob", "digest": "sha256:" + sha(fx.data["g0"]), "data": fx.data["g0"].hex(), "_fx": "g0"},
@@ -553,6 +606,8 @@ def act_to_coq(ids, fx, op, before, after):
     if op["op"] == "legacy":
         return "(ALegacy %s %s)" % (cq_list([cq_N(ids.h(h)) for h in op.get("blobs", [])], "N"),
                                     cq_list([cq_N(ids.h(h)) for h in op.get("partials", [])], "N"))
+    if op["op"] == "linkdir":
+        return "(ALegacy (@nil N) (@nil N))"   # a symbolic link to a directory is transparent to the store: no change in the model
     if op["op"] == "head":
         return "(AHead %s)" % ids.digest(op["digest"])
     if op["op"] == "corrupt":
@@ -575,7 +630,7 @@ def res_class(op, o):
     return "RErr"
 
 
-EMPTY_STATE = {"manifests": [], "blobs": [], "other": [], "empty_dirs": 0}
+EMPTY_STATE = {"manifests": [], "blobs": [], "other": [], "empty_dirs": 0, "links": []}
 
 
 def render_history(fx, ops, obs):
@@ -621,7 +676,7 @@ def check_complete(st, m):
 def monitor_step(op, before, o):
     """the property on one step of the real store.  Returns list of (sig, what)."""
     out = []
-    if op["op"] in ("legacy", "corrupt"):
+    if op["op"] in ("legacy", "corrupt", "linkdir"):
         return out  # scaffolding: the store of an older version / a torn manifest is planted, nothing to judge
     st = o["state"]
     api = o.get("api") or {}
@@ -657,6 +712,11 @@ def monitor_step(op, before, o):
                         "after %s, %s %s: changing one changes the other" % (
                             op["op"], e.get("path") or e.get("name"),
                             ("is a symbolic link to %s" % e["symlink"]) if e.get("symlink") is not None else ("shares its inode with %s" % e["linked"]))))
+    # a directory that is a symbolic link is part of the layout the user chose: no operation removes or replaces it
+    have = {(l["path"], bool(l.get("dangling"))) for l in st.get("links", [])}
+    for l in before.get("links", []):
+        if (l["path"], bool(l.get("dangling"))) not in have:
+            out.append(({"class": "link-removed", "op": op["op"]}, "%s removed or replaced the symbolic link %s" % (op["op"], l["path"])))
     # no two listed names differ only by case
     seen = {}
     for m in readable:
@@ -702,6 +762,9 @@ def monitor_step(op, before, o):
             out.append(({"class": "prune-empty-dirs"}, "start-up prune left %d empty manifest directories" % st["empty_dirs"]))
     if "panic" in o:
         out.append(({"class": "panic", "op": op["op"]}, "handler panicked: %s" % o["panic"]))
+    if op["op"] == "startup" and any(l.get("top") for l in st.get("links", [])) and any(b["name"].startswith("sha256:") for b in st["blobs"]):
+        # fixBlobs walked a blobs/ that is a symbolic link: nothing was renamed (fixes/C04-fixblobs-symlink.patch)
+        out = [(dict(sig, legacy_unmigrated=True), what) for sig, what in out]
     return out
 
 
@@ -821,6 +884,8 @@ def run(ctx):
             small = shrink(ctx, binp, h[:i + 1], sig)
             ctx.violation(sig, what, {"history": [describe(o) for o in small], "found_in_class": kl, "step": i,
                                       "how_to_replay": "python3 check.py C04 --replay <this file>", "ops": strip(small)})
+        if any(sig.get("legacy_unmigrated") for _, sig, _ in monitor_history(h, ob)):
+            continue  # reported above; the model describes the repaired fixBlobs
         try:
             items.append(render_history(fx, h, ob))
             item_idx.append(hi)
